@@ -23,7 +23,7 @@ def obligations(tier):
     obs = []
 
     def add(name, fn, builder, t=3000, **params):
-        obs.append({"name": name, "harness": H + fn, "builder": H + builder, "params": params, "timeout_s": t, "query_timeout_ms": 300000 if tier == "quick" else 900000})
+        obs.append({"name": name, "harness": H + fn, "builder": H + builder, "params": params, "timeout_s": min(t, 2400), "query_timeout_ms": 300000 if tier == "quick" else 900000})
     name = "map model / refusal rule / unchanged state on refusal / blank root iff empty"
     if tier == "quick":
         for k2 in (0, 1, 2):
